@@ -83,9 +83,9 @@ def build_driver(libdir, tag):
     return exe
 
 
-def run_trace(exe_dbg, argv):
+def run_trace(exe_dbg, argv, empty=False):
     r = subprocess.run(["timeout", "120", "gdb", "-batch", "-nx", "-x", os.path.join(HERE, "c09_trace.gdb"), "--args", exe_dbg] + argv,
-                       capture_output=True, text=True)
+                       capture_output=True, text=True, env=dict(os.environ, C09_EMPTY="1") if empty else None)
     calls = []; cur = None; state = None
     for line in r.stdout.splitlines():
         if line.startswith("OP MARK"):
@@ -103,8 +103,8 @@ def run_trace(exe_dbg, argv):
     return calls, ""
 
 
-def run_prod(exe, argv):
-    r = subprocess.run(["timeout", "60", exe] + argv, capture_output=True, text=True)
+def run_prod(exe, argv, empty=False):
+    r = subprocess.run(["timeout", "60", exe] + argv, capture_output=True, text=True, env=dict(os.environ, C09_EMPTY="1") if empty else None)
     marks = [[int(x) for x in l.split()[2:6]] for l in r.stdout.splitlines() if l.startswith("MARK")]
     if r.returncode != 0 or not marks:
         return None
@@ -309,7 +309,7 @@ def coq_case(c, per_call, flags, T):
                % (b(c["safe"]), b(c["keep"]), KERNELS[c["kernel"]], c["corr"], b(c["corr2"]), COORDS[c["coord"]], b(c["var"])))
         xd = exact_dts(c)
         calls = "[" + "; ".join(wcall(c, k, t, xd) for k, t in enumerate(c["calls"])) + "]"
-        return "(w_bad %s %s %s %s)" % (dt, cfg, calls, exp)
+        return "(%s %s %s %s %s)" % ("w_bad_empty" if c.get("empty") else "w_bad", dt, cfg, calls, exp)
     if c["integ"] == "saba":
         lo = c["type"] % 0x100
         cfg = ("{| s_safe := %s; s_keep := %s; s_corr_on := %s; s_stages := %d; s_c := %s; s_d := %s; s_cc := %s; s_ok := true |}"
@@ -317,10 +317,10 @@ def coq_case(c, per_call, flags, T):
                   vlib.fhex(T["cc"][lo] if lo < 4 else 0.0)))
         xd = exact_dts(c)
         calls = "[" + "; ".join(scall(c, k, t, xd) for k, t in enumerate(c["calls"])) + "]"
-        return "(s_bad %s %s %s %s)" % (dt, cfg, calls, exp)
+        return "(%s %s %s %s %s)" % ("s_bad_empty" if c.get("empty") else "s_bad", dt, cfg, calls, exp)
     calls = "[" + "; ".join(MTOK2CALL[t] for t in c["calls"]) + "]"
     if c["integ"] == "mercurius":
-        return "(m_bad %s %s %s %s)" % (dt, b(c["safe"]), calls, exp)
+        return "(%s %s %s %s %s)" % ("m_bad_empty" if c.get("empty") else "m_bad", dt, b(c["safe"]), calls, exp)
     return "(e_bad %s %s %s %s)" % (vlib.fhex(eos_a0dt(T["eos"], c["phi0"], c["dt"])), b(c["safe"]), calls, exp)
 
 
@@ -354,9 +354,20 @@ def correspondence(ctx, libdir, T):
     for k in range(neo):
         cases.append({"integ": "eos", "phi0": k % 9, "phi1": rng.choice([0, 1, 4]), "n": rng.choice([1, 2, 3]), "safe": rng.choice([0, 1]),
                       "dt": rng.choice([0.125, 0.07, -0.05]), "calls": gen_calls(rng, 10, integrate=False)})
+    # empty simulations (N = 0): reb_integrator_part1/part2 do not enter the integrator: no operator may be called
+    for k in range(ctx.scale(9, 30)):
+        calls = [t for t in gen_calls(rng, 10, flags=(k % 3 == 0), integrate=False) ]
+        if k % 3 == 0:
+            cases.append({"integ": "whfast", "kernel": rng.choice([0, 1, 2, 3]), "corr": rng.choice([0, 3]), "corr2": 0, "coord": 0, "var": 0,
+                          "safe": rng.choice([0, 1]), "keep": 0, "dt": 0.125, "calls": calls, "ok": True, "empty": True})
+        elif k % 3 == 1:
+            cases.append({"integ": "saba", "type": rng.choice([0x0, 0x6, 0x102]), "safe": rng.choice([0, 1]), "keep": rng.choice([0, 1]), "dt": 0.07,
+                          "calls": calls, "empty": True})
+        else:
+            cases.append({"integ": "mercurius", "safe": rng.choice([0, 1]), "dt": 0.125, "calls": calls, "empty": True})
     with ThreadPoolExecutor(max_workers=vlib.JOBS) as ex:
-        traces = list(ex.map(lambda c: run_trace(exe_dbg, argv_of(c)), cases))
-        prods = list(ex.map(lambda c: run_prod(exe_prod, argv_of(c)), cases))
+        traces = list(ex.map(lambda c: run_trace(exe_dbg, argv_of(c), c.get("empty", False)), cases))
+        prods = list(ex.map(lambda c: run_prod(exe_prod, argv_of(c), c.get("empty", False)), cases))
     terms = []; bad = []; flag_mismatch = []; hist = {}
     for c, (tr, err), pf in zip(cases, traces, prods):
         lab = {k: v for k, v in c.items() if k != "calls"}
@@ -379,7 +390,7 @@ def correspondence(ctx, libdir, T):
         if why:
             bad.append((lab, c["calls"], why)); continue
         terms.append((c, coq_case(c, per_call, pf, T)))
-        key = (c["integ"], c.get("kernel"), c.get("corr"), c.get("coord"), c.get("var"), c.get("type"), c.get("phi0"), c["safe"], c.get("keep"))
+        key = (c["integ"], c.get("kernel"), c.get("corr"), c.get("coord"), c.get("var"), c.get("type"), c.get("phi0"), c["safe"], c.get("keep"), c.get("empty", False))
         hist[str(key)] = hist.get(str(key), 0) + 1
         ctx.case(key=key, sample={"case": lab, "calls": c["calls"], "library_trace_of_first_calls": [o for o, _ in tr[:2]]} if len(ctx.samples) < 3 else None)
     jobs = []; chunk = 12
@@ -585,10 +596,10 @@ def run(ctx):
     ctx.regen("translate_schemes.py")        # Gen/Schemes.v: the corrector2 word used by C09_corrector2_inverse_defect_is_eps2_h4
     ctx.log("regenerated"); ctx.prove("C09", extra_targets=["C09/Run.vo"]); ctx.log("proved")
     sys.path.insert(0, libdir)
-    correspondence(ctx, libdir, T)
+    correspondence(ctx, libdir, T); ctx.log("correspondence done")
     probes(ctx, libdir)
-    corners(ctx, libdir)
-    search(ctx, libdir, "default")
+    corners(ctx, libdir); ctx.log("corners done")
+    search(ctx, libdir, "default"); ctx.log("searcher (default build) done")
     have_avx = False
     try:
         have_avx = "avx512f" in open("/proc/cpuinfo").read()
